@@ -396,7 +396,78 @@ def r5_pipe_agree(c, facts):
         c.bad(R, 'pipeline-stages-differ', 'oal-cli::run runs %s but oal_wasm::process runs %s (expected the same %s)' % (oa, ob, STAGES), **inst)
 
 
+def _field_sources(fn, local, idx, depth=0):
+    """set of (root parameter, field path) a local is a (reference to a) projection of, through as_ref/as_deref/copies"""
+    out = set()
+    seen = set()
+    stack = [local]
+    while stack:
+        l = stack.pop()
+        if l in seen:
+            continue
+        seen.add(l)
+        if 1 <= l <= fn.mir['argc']:
+            out.add((l, ()))
+        for kind, bi, d in idx.get(l, []):
+            if kind == 'assign':
+                rv = d['rv']
+                pl = rv.get('place') if rv['r'] in ('ref', 'rawptr') else rv.get('op') if rv['r'] in ('use', 'cast') else None
+                if pl and 'l' in pl:
+                    fp = tuple(x for x in MF.field_path(pl) if not x.startswith('<'))
+                    if fp:
+                        for root, pre in (_field_sources(fn, pl['l'], idx, depth + 1) if depth < 4 else {(pl['l'], ())}):
+                            out.add((root, pre + fp))
+                    else:
+                        stack.append(pl['l'])
+            elif kind == 'call':
+                cal = callee_of(d)
+                if cal and P.strip(cal['def']).split('::')[-1] in ('as_ref', 'as_deref', 'deref', 'clone', 'borrow'):
+                    stack.extend(a['l'] for a in d['args'][:1] if 'l' in a)
+    return {(r, fp) for r, fp in out if fp or 1 <= r <= fn.mir['argc']}
+
+
+def r7_option_precedence(c, facts):
+    """configurations: a command-line option overrides the configuration file, uniformly for main, target and base"""
+    R = c.rule('C13.R7', 'OPTION-PRECEDENCE: Config::{main,target,base} take the command-line option first and the configuration file second, each from its own field')
+    for x in ('main', 'target', 'base'):
+        fn = c.anchor(R, 'oal_client::config::Config::' + x)
+        idx = MF.defs_index(fn)
+        found = []
+        for b, t in P.call_blocks(fn, 'Option::or'):
+            found.append((_field_sources(fn, t['args'][0]['l'], idx), _field_sources(fn, t['args'][1]['l'], idx)))
+        if not found:
+            for b, t in fn.calls():
+                cal = callee_of(t)
+                h = facts.fns.get(cal.get('resolved_id') or cal.get('id')) if cal else None
+                if not h or not h.mir or h.crate != fn.crate:
+                    continue
+                hidx = MF.defs_index(h)
+                for hb, ht in P.call_blocks(h, 'Option::or'):
+                    sides = []
+                    for a in ht['args'][:2]:
+                        src = set()
+                        for root, fp in _field_sources(h, a['l'], hidx):
+                            if 1 <= root <= h.mir['argc'] and root - 1 < len(t['args']) and 'l' in t['args'][root - 1]:
+                                for r2, fp2 in _field_sources(fn, t['args'][root - 1]['l'], idx):
+                                    src.add((r2, fp2 + fp))
+                        sides.append(src)
+                    found.append(tuple(sides))
+        want = ({(1, ('args', x))}, {(1, ('file', 'api', x))})
+        inst = {'accessor': 'Config::' + x, 'first': sorted('.'.join(fp) for _, fp in found[0][0]) if found else None, 'then': sorted('.'.join(fp) for _, fp in found[0][1]) if found else None}
+        if len(found) == 1 and found[0] == want:
+            c.ok(R, inst)
+        elif not found:
+            c.bad(R, '%s:no-fallback-found' % x, 'Config::%s no longer combines the command-line option and the configuration file with Option::or (directly or in one same-crate helper)' % x, **inst)
+        else:
+            c.bad(R, '%s:precedence' % x, 'Config::%s takes %s first and %s second; expected self.args.%s first, then self.file.api.%s: with both given, the CLI reports success without writing the target named on the command line' % (x, inst['first'], inst['then'], x, x), **inst)
+
+
 def run(c, facts):
+    c.run(r7_option_precedence, facts)
+    import c15
+    R8 = c.rule('C13.R8', 'LSP-FRESH: the diagnostics the server publishes are computed from the current texts after every open, change, close or folder change (shared with C15.R1/R2)')
+    c.shared(R8, c15.r1_set_stale, 'C15.R1', facts)
+    c.shared(R8, c15.r2_refresh_first, 'C15.R2', facts)
     c.run(r1_sole_writer, facts)
     c.run(r2_write_last, facts)
     c.run(r3_exit, facts)
